@@ -737,6 +737,11 @@ impl Ctx {
                 if r.is_err() {
                     sh.event("finally_overrides");
                 }
+                if matches!(r, Err(Ctl::Return(_))) && matches!(e, Ctl::Throw(_)) {
+                    // yarel keeps the saved return address: the next finally block to finish anywhere
+                    // "returns" with it (recorded finding E10)
+                    sh.event("E10");
+                }
                 return Err(e);
             }
         }
@@ -896,7 +901,10 @@ impl Ctx {
                         Part::Lit(s) => out.push_str(s),
                         Part::Ex(x) => {
                             let v = self.eval(x, env, sc)?;
-                            out.push_str(&display(&v));
+                            match display_checked(&v) {
+                                Some(t) => out.push_str(&t),
+                                None => return Err(Ctl::Discard("value prints to more than 64 KiB")),
+                            }
                         }
                     }
                     if out.len() > 1 << 16 {
